@@ -110,13 +110,13 @@ def _g_gate(tier):
 
 
 OBLIGATIONS = [
-    Ob("gate", sym_gate, _g_gate, mbox.nat_rg(sym_gate), setup=mbox.setup, witnesses=0,
+    Ob("gate", sym_gate, _g_gate, mbox.nat_rg(sym_gate), setup=mbox.setup, witnesses=1,
        doc="lazy: when the gate lets the sender advance the source, a driving reader waits for an unproduced message"),
     Ob("gate_open", sym_gate_closed, lambda tier: [dict(nsubs=s, drivers=m) for s in ([1, 2] if tier == "quick" else [1, 2, 3])
                                                    for m in C05._masks(s)], mbox.nat_rg(sym_gate_closed),
-       setup=mbox.setup, witnesses=0, doc="lazy: unmet demand (and no served waiter) => gate open"),
+       setup=mbox.setup, witnesses=1, doc="lazy: unmet demand (and no served waiter) => gate open"),
     Ob("cap_send", C05.sym_send, lambda tier: [p for p in C05._g_send(tier) if not p["lazy"]], mbox.nat_rg(C05.sym_send),
-       setup=mbox.setup, witnesses=0, doc="eager: len(queue) <= capacity is inductive over send (incl. blocked sender)"),
+       setup=mbox.setup, witnesses=1, doc="eager: len(queue) <= capacity is inductive over send (incl. blocked sender)"),
     Ob("cap_read", C05.sym_read, lambda tier: [p for p in C05._g_read(tier) if not p["lazy"]], mbox.nat_rg(C05.sym_read),
-       setup=mbox.setup, witnesses=0, doc="eager: invariant (incl. capacity) preserved by reader sections"),
+       setup=mbox.setup, witnesses=1, doc="eager: invariant (incl. capacity) preserved by reader sections"),
 ]
